@@ -459,7 +459,12 @@ class LiveMedia(MediaRequestBase):
                 seg_num, first, last)
             raise err
 
-        if seg_num < first or seg_num > last:
+        # The first/last numbers are counted from startNumber. In live mode a
+        # number derived from $Time$ is counted from zero, and the availability
+        # of its time has already been checked by
+        # calculate_segment_number_and_time()
+        by_live_time = (seg_time is not None and timing.mode == 'live')
+        if not by_live_time and (seg_num < first or seg_num > last):
             logging.info(
                 '%s: Request for fragment %d that is not available (%d -> %d)',
                 timing.now, seg_num, first, last)
